@@ -3,6 +3,7 @@ mod par;
 mod report;
 mod tree;
 mod valmc;
+mod crashmc;
 mod parsemc;
 mod dbgmc;
 mod clvmmc;
@@ -48,6 +49,7 @@ fn main() {
         "C08" => valmc::c08(thorough, replay),
         "C09" => conv::c09(thorough, replay),
         "C12" => dbgmc::c12(thorough, replay),
+        "C14" => crashmc::c14(thorough, replay),
         "C15" => parsemc::c15(thorough, replay),
         "C20" => valmc::c20(thorough, replay),
         _ => {
